@@ -292,12 +292,18 @@ def r4_count_write_pairing(ctx, rule):
             if id(i) not in paired:
                 ok = False
                 ctx.bad(rule, qual, 'increment without a write: ' + U(i), 'a guess is counted that is not written', None, i)
-        # recursive results are added
+        # recursive results are added (in the block of the call)
         for st in walk_stmts(fn.body):
             if isinstance(st, ast.Assign) and isinstance(st.value, ast.Call) and call_name(st.value) in ('self._recursive_guesses', 'self._honeyword_recursive_guess') \
                     and isinstance(st.targets[0], ast.Name):
                 nm = st.targets[0].id
-                if not any(U(a.value) == nm for a in adds):
+                par = mod.parents.get(id(st))
+                block = []
+                for field in ('body', 'orelse'):
+                    lst = getattr(par, field, None)
+                    if isinstance(lst, list) and any(x is st for x in lst):
+                        block = lst
+                if not any(U(a.value) == nm and any(x is a for x in block) for a in adds):
                     ok = False
                     ctx.bad(rule, qual, 'count returned by %s is not added to num_guesses' % call_name(st.value),
                             'guesses written by the recursion are not reported', None, st)
